@@ -7,7 +7,7 @@ git -C /repo diff --quiet || { echo "/repo has uncommitted changes"; exit 2; }
 git -C /repo apply /verif/seeded/$sid/patch.diff || { echo "patch does not apply"; exit 2; }
 mkdir -p .work/seedruns
 for p in "$@"; do
-  VERIF_EVIDENCE_DIR=/verif/.work/seedruns/ev_$sid python3 run.py $p --tier quick > .work/seedruns/${sid}_$p.out 2>&1
+  VERIF_EVIDENCE_DIR=/verif/.work/seedruns/ev_$sid python3 run.py $p --tier quick --max-replays 1 > .work/seedruns/${sid}_$p.out 2>&1
   rc=$?
   echo "$sid $p exit=$rc violations=$(grep -c '^VIOLATION' .work/seedruns/${sid}_$p.out) first=$(grep -A1 '^VIOLATION' .work/seedruns/${sid}_$p.out | sed -n 2p | cut -c1-160)"
 done
